@@ -83,6 +83,9 @@ func (le *linEval) Eval(v ssa.Value) linExpr {
 }
 
 func (le *linEval) eval(v ssa.Value) linExpr {
+	if cv := canonPhi(v); cv != v {
+		return le.Eval(cv)
+	}
 	switch x := v.(type) {
 	case *ssa.Const:
 		if c, ok := constInt(x); ok {
